@@ -90,6 +90,8 @@ KINDS = {
     'like_many': ("select a1 where like(a2, 'v_') and like(a1, '1%')", {}),
     'except_header': ('select * except a.name', {'header': True}),
     'join_header': ('select a.id, b.jval join B on a.name == b.key', {'join': True, 'header': True}),
+    'join_two_keys': ('select a1, b2 left join B on a2 == b1 and a1 == b3', {'join': True, 'join_b3_from_a1': True}),
+    'err_join_table_missing': ('select a1, b2 join B on a2 == b1', {'join_missing': True}),
 }
 KIND_NAMES = sorted(KINDS)
 THREAD_KINDS = [k for k in KIND_NAMES]
@@ -100,7 +102,7 @@ def gen_op(rng, kind=None, api=None, max_rows=6, pool=40):
     # each) are shared between runs; schedules and histories are what vary freely.
     import random
     kind = kind or rng.choice(KIND_NAMES)
-    api = api or rng.choices(['table', 'iter', 'csv', 'df', 'cli', 'csviter'], [38, 22, 13, 8, 12, 7])[0]
+    api = api or rng.choices(['table', 'iter', 'csv', 'df', 'cli', 'csviter', 'sqlite'], [36, 20, 12, 8, 11, 7, 6])[0]
     rng = random.Random('c16tbl:%s:%d:%d' % (kind, rng.randrange(pool), max_rows))
     query, opt = KINDS[kind]
     nrows = rng.choice([0, 1, 2, 3, 4, 4, max_rows]) if max_rows > 4 else rng.choice([1, 2, 3, 4, 4])
@@ -113,6 +115,11 @@ def gen_op(rng, kind=None, api=None, max_rows=6, pool=40):
         rows[rng.randrange(len(rows))][0] = 'bad'
     if opt.get('join'):
         op['join_rows'] = workload.gen_join_table(rng, rng.choice([0, 1, 2, 3, 4]))
+        if opt.get('join_b3_from_a1'):
+            for jr in op['join_rows']:
+                jr[2] = rng.choice(['1', '2', '3', '10'])
+    if opt.get('join_missing'):
+        op['join_missing'] = True
     if opt.get('header') or (rng.random() < 0.15 and not opt.get('ragged')):
         op['header'] = ['id', 'name', 'tag']
         if 'join_rows' in op:
@@ -127,6 +134,13 @@ def gen_op(rng, kind=None, api=None, max_rows=6, pool=40):
         op['init'] = opt['init']
     if op['api'] == 'csviter' and (opt.get('ragged') or kind in ('star', 'except', 'err_unknown_join') or not rows):
         op['api'] = 'iter'
+    if opt.get('join_missing') and op['api'] in ('df', 'sqlite', 'csviter'):
+        op['api'] = 'table'
+    if op['api'] == 'sqlite' and (opt.get('ragged') or opt.get('header') or not rows):
+        op['api'] = 'table'
+    if op['api'] == 'sqlite':
+        op.pop('header', None)
+        op.pop('join_header', None)
     if op['api'] in ('csv', 'cli', 'df') and (opt.get('init') or opt.get('ragged') and op['api'] == 'df'):
         op['api'] = 'table'
     if op['api'] == 'df' and (not rows or opt.get('join') and not op.get('join_rows')):
@@ -263,6 +277,9 @@ def run_op(t, op, baton=None, tid=0):
             it = SimIterator(rows, header, 'a', baton, tid)
             wr = SimWriter(out, baton, tid)
             reg = SimRegistry(join_rows, jheader, baton, tid) if join_rows is not None else None
+            if op.get('join_missing'):
+                reg = SimRegistry([], None, baton, tid)
+                reg.get_iterator_by_table_id = lambda table_id, alias: None
             t.engine.query(op['query'], it, wr, warnings, reg, user_init_code=op.get('init', ''))
             return norm(['ok', out, wr.header, warnings])
         if api == 'csviter':
@@ -279,6 +296,9 @@ def run_op(t, op, baton=None, tid=0):
         if api == 'table':
             out = []
             out_header = []
+            if op.get('join_missing'):
+                t.engine.query(op['query'], t.engine.TableIterator(rows, header), t.engine.TableWriter(out), warnings, t.engine.ListTableRegistry([]))
+                return norm(['ok', out, None, warnings])
             t.engine.query_table(op['query'], rows, out, warnings, join_rows, header, jheader, out_header, True, op.get('init', ''))
             return norm(['ok', out, out_header, warnings])
         if api == 'df':
@@ -287,6 +307,25 @@ def run_op(t, op, baton=None, tid=0):
             jdf = pandas.DataFrame(join_rows, columns=jheader) if join_rows is not None else None
             res = t.pandas.query_dataframe(op['query'], df, warnings, jdf)
             return norm(['ok', res.values.tolist(), [str(c) for c in res.columns], warnings])
+        if api == 'sqlite':
+            import sqlite3
+            w = fsseam.reset_work_dir()
+            db = os.path.join(w, 'db.sqlite')
+            con = sqlite3.connect(db)
+            con.execute('create table ta (id text, name text, tag text)')
+            con.executemany('insert into ta values (?,?,?)', [tuple((list(r) + [None, None, None])[:3]) for r in rows])
+            con.execute('create table tb (key text, jval text, jtag text)')
+            con.executemany('insert into tb values (?,?,?)', [tuple((list(r) + [None, None, None])[:3]) for r in (join_rows or [])])
+            con.commit()
+            out_path = os.path.join(w, 'sqlite_out.csv')
+            try:
+                with fsseam.ProcessSeam(t) as seam:
+                    t.sqlite.query_sqlite_to_csv(op['query'].replace(' B on ', ' tb on '), con, 'ta', out_path, ',', 'quoted_rfc', 'utf-8', warnings, op.get('init', ''))
+                seam.restore_hook()
+            finally:
+                con.close()
+            with open(out_path, 'rb') as f:
+                return norm(['ok', f.read().decode('utf-8', 'replace'), warnings], w)
         # csv / cli
         w = fsseam.reset_work_dir()
         in_rows = ([header] if header else []) + rows
@@ -298,6 +337,8 @@ def run_op(t, op, baton=None, tid=0):
             with open(os.path.join(w, 'jt.csv'), 'w', newline='') as f:
                 f.write(workload.to_csv(jr))
             query = query.replace(' B on ', ' jt.csv on ')
+        elif op.get('join_missing'):
+            query = query.replace(' B on ', ' jt.csv on ')      # the file does not exist (the work directory was just reset)
         raw = SimRawSink(None)
         stdout = StdShape(io.BufferedWriter(raw, buffer_size=8192))
         argv = None
@@ -436,6 +477,11 @@ def generate(rng, tier, idx):
             kind = rng.choice(KIND_NAMES if rng.random() < 0.5 else ['header_attr', 'except_header', 'join_header', 'agg_float', 'agg_plain', 'like', 'join', 'init_code'])
             for _ in range(rng.choice([2, 2, 3])):
                 ops.insert(rng.randrange(len(ops) + 1), gen_op(rng, kind, pool=pool))
+        if rng.random() < 0.12:
+            # a JOIN on a table that is not there, followed later by the same JOIN when it is: what a cached lookup would get wrong
+            api = rng.choice(['csv', 'cli', 'csv', 'table'])
+            ops.insert(rng.randrange(len(ops) + 1), gen_op(rng, 'err_join_table_missing', api=api, pool=pool))
+            ops.append(gen_op(rng, 'join', api=api, pool=pool))
             ops = ops[:7]
         return {'part': 'A', 'ops': ops}
     n = 2 if rng.random() < (0.85 if tier == 'quick' else 0.7) else 3
@@ -444,7 +490,7 @@ def generate(rng, tier, idx):
     if same_family:
         # bias towards pairs that share a mechanism (aggregation / unnest / like / join)
         fam = rng.choice([['agg_group', 'agg_plain', 'agg_median', 'agg_any', 'join_agg', 'agg_float', 'agg_float_group', 'err_agg_nonnumeric'], ['unnest', 'unnest2', 'err_two_unnest'],
-                          ['like', 'like2', 'where'], ['init_code', 'uses_foo', 'init_import', 'uses_math'],
+                          ['like', 'like2', 'where'], ['init_code', 'uses_foo', 'init_import', 'uses_math'], ['join', 'left_join', 'join_two_keys', 'join_agg', 'join_header'],
                           ['err_runtime', 'agg_group', 'unnest', 'err_agg_misuse'], ['update', 'update_nu', 'distinct', 'top', 'limit_distinct']])
         kinds = rng.sample(fam, min(n, len(fam)))
     ops = [gen_op(rng, k, api=rng.choice(['iter', 'iter', 'iter', 'csviter']), max_rows=4, pool=(40 if tier == 'quick' else 400)) for k in kinds]
